@@ -63,7 +63,8 @@ namespace {
     {
         int winners = 0;
         uint64_t win_inv = 0, win_ret = 0;
-        int live_sources = 0;
+        int live_sources = 0;     // lower bound of the number of stop_sources of the state (changed before a source goes, after one comes)
+        int upper_sources = 0;    // upper bound (changed before a source comes, after one has gone)
         int inflight_src_ops = 0;
         bool requested_inv = false;
     };
@@ -155,10 +156,29 @@ namespace {
     };
 
     pika::stop_source* base_src = nullptr;    // NSTATES sources kept alive by main until the end
+    // "orphan" runs: main keeps only a token per state; every party starts with one source per state of its own and all
+    // further sources descend from those, so that a state can lose its last source while tokens and callbacks live on
+    bool g_orphan = false;
+    pika::stop_token* base_tok = nullptr;
+    std::vector<std::vector<pika::stop_source>> seed_src;
 
     void run_party(Program const& prog, int me, bool os)
     {
         Local L;
+        if (g_orphan)
+            for (int s = 0; s < NSTATES; s++)
+            {
+                L.src.push_back(std::move(seed_src[(size_t) me][(size_t) s]));
+                L.src_state.push_back(s);
+            }
+        // the source through which this party reaches state s (orphan runs: its own newest one, if it has any left)
+        auto src_of = [&L](int s) -> pika::stop_source* {
+            if (!g_orphan) return &base_src[s];
+            for (size_t i = L.src.size(); i-- > 0;)
+                if (L.src_state[i] == s) return &L.src[i];
+            return nullptr;
+        };
+        auto token_of = [](int s) { return g_orphan ? base_tok[s] : base_src[s].get_token(); };
         auto yield1 = [os] {
             if (os)
                 std::this_thread::yield();
@@ -173,11 +193,16 @@ namespace {
             switch (op.v[1])
             {
             case OP_SRC_COPY:
-                St[s].inflight_src_ops++;
-                L.src.push_back(base_src[s]);
-                L.src_state.push_back(s);
-                St[s].live_sources++;
-                St[s].inflight_src_ops--;
+                if (pika::stop_source* from = src_of(s))
+                {
+                    St[s].inflight_src_ops++;
+                    St[s].upper_sources++;
+                    pika::stop_source copy(*from);
+                    L.src.push_back(std::move(copy));
+                    L.src_state.push_back(s);
+                    St[s].live_sources++;
+                    St[s].inflight_src_ops--;
+                }
                 break;
             case OP_SRC_DESTROY:
                 if (!L.src.empty())
@@ -187,6 +212,8 @@ namespace {
                     St[ss].live_sources--;
                     L.src.pop_back();
                     L.src_state.pop_back();
+                    St[ss].upper_sources--;
+                    if (g_orphan && St[ss].upper_sources == 0) probe("src.last_source_of_state_destroyed");
                     St[ss].inflight_src_ops--;
                 }
                 break;
@@ -202,14 +229,16 @@ namespace {
                 }
                 break;
             case OP_SRC_ASSIGN:
-                if (!L.src.empty())
+                if (pika::stop_source* from = L.src.empty() ? nullptr : src_of(s))
                 {
                     int old = L.src_state.back();
                     St[old].inflight_src_ops++;
                     St[s].inflight_src_ops++;
-                    L.src.back() = base_src[s];    // copy-assign: old state loses one source, s gains one
-                    St[s].live_sources++;
+                    St[s].upper_sources++;
                     St[old].live_sources--;
+                    L.src.back() = *from;    // copy-assign: old state loses one source, s gains one (possibly onto itself)
+                    St[s].live_sources++;
+                    St[old].upper_sources--;
                     L.src_state.back() = s;
                     St[old].inflight_src_ops--;
                     St[s].inflight_src_ops--;
@@ -223,11 +252,12 @@ namespace {
                     int from = L.src_state[n - 1], old = L.src_state[n - 2];
                     St[old].inflight_src_ops++;
                     St[from].inflight_src_ops++;
-                    L.src[n - 2] = std::move(L.src[n - 1]);    // the overwritten state loses one source
                     St[old].live_sources--;
+                    L.src[n - 2] = std::move(L.src[n - 1]);    // the overwritten state loses one source
                     L.src_state[n - 2] = from;
                     L.src.pop_back();    // moved-from: owns nothing
                     L.src_state.pop_back();
+                    St[old].upper_sources--;
                     St[old].inflight_src_ops--;
                     St[from].inflight_src_ops--;
                     VH_CHECK(L.src.back().stop_possible(), "C14.stop_possible", "move-assigned source lost its state");
@@ -247,6 +277,7 @@ namespace {
                         St[ss].live_sources--;
                         L.src.pop_back();
                         L.src_state.pop_back();
+                        St[ss].upper_sources--;
                     }
                     St[ss].inflight_src_ops--;
                     probe("src.self_move_assign");
@@ -262,16 +293,32 @@ namespace {
                 break;
             case OP_TOKEN_CHECK:
             {
-                pika::stop_token tok = base_src[s].get_token();
+                pika::stop_token tok = token_of(s);
                 bool won = St[s].winners > 0 && St[s].win_ret != 0;    // a winner has returned
+                bool const none_left = St[s].upper_sources == 0, never_requested = !St[s].requested_inv;
                 bool req = tok.stop_requested();
                 if (won)
                     VH_CHECK(req, "C14.token_not_stopped",
                         "token of state %d reports stop_requested()==false after request_stop() returned true", s);
                 if (!St[s].requested_inv)
                     VH_CHECK(!req, "C14.token_stopped_early", "token reports stop without any request_stop call");
-                VH_CHECK(tok.stop_possible(), "C14.stop_possible",
-                    "stop_possible()==false while a stop_source for the state exists");
+                if (!g_orphan)
+                    VH_CHECK(tok.stop_possible(), "C14.stop_possible",
+                        "stop_possible()==false while a stop_source for the state exists");
+                else
+                {
+                    // (no source can come back once the last one is gone: copies are taken from sources only)
+                    bool const possible = tok.stop_possible();
+                    if (won || St[s].live_sources > 0)
+                        VH_CHECK(possible, "C14.stop_possible", "stop_possible()==false for state %d although %s", s,
+                            won ? "stop was requested" : "a stop_source for it still exists");
+                    if (none_left && never_requested)
+                    {
+                        VH_CHECK(!possible, "C14.stop_possible",
+                            "stop_possible()==true for state %d: every stop_source is gone and stop was never requested", s);
+                        probe("token.checked_after_last_source");
+                    }
+                }
                 break;
             }
             case OP_CB_CONSTRUCT:
@@ -282,8 +329,9 @@ namespace {
                 c.state = s;
                 c.action = (int) (((op.v[4] % 4) + 4) % 4);
                 c.ctor_inv = sim_seq();
-                pika::stop_token tok = base_src[s].get_token();
+                pika::stop_token tok = token_of(s);
                 bool stopped_before = St[s].win_ret != 0;
+                if (g_orphan && stopped_before && St[s].upper_sources == 0) probe("cb.registered_after_stop_and_last_source");
                 cbs[j].emplace(tok, CbFn{j});
                 c.ctor_ret = sim_seq();
                 c.constructed = true;
@@ -311,9 +359,11 @@ namespace {
             }
             case OP_REQUEST_STOP:
             {
+                pika::stop_source* through = src_of(s);
+                if (!through) break;    // (orphan runs: this party has no source of that state left)
                 uint64_t inv = sim_seq();
                 St[s].requested_inv = true;
-                bool r = base_src[s].request_stop();
+                bool r = through->request_stop();
                 if (r)
                 {
                     St[s].winners++;
@@ -336,6 +386,8 @@ namespace {
         }
         // local sources die here
         for (size_t i = 0; i < L.src.size(); i++) St[L.src_state[i]].live_sources--;
+        L.src.clear();
+        for (int ss : L.src_state) St[ss].upper_sources--;
     }
 
     void run_stop(RunCtx& ctx, bool kf_os_only)
@@ -344,6 +396,7 @@ namespace {
         Rng r(mix_seed(ctx.seed, 90));
         int nparties = (int) ctx.params.set("c14.parties", r.range(2, 5));
         int64_t os_mask = ctx.params.set("c14.os_mask", kf_os_only ? 0xff : (int64_t) r.below(32));
+        g_orphan = ctx.params.set("c14.orphan_states", !kf_os_only && r.chance(1, 3) ? 1 : 0) != 0;
         if (!ctx.program_from_replay)
         {
             Program p;
@@ -354,6 +407,7 @@ namespace {
                 Op op;
                 op.v[0] = (int64_t) r.below((uint64_t) nparties);
                 uint64_t x = r.below(100);
+                if (g_orphan && r.chance(1, 4)) x = 9;    // (more sources are destroyed in orphan runs)
                 int k = x < 9 ? OP_SRC_COPY :
                     x < 13    ? OP_SRC_DESTROY :
                     x < 15    ? OP_SRC_MOVE :
@@ -394,7 +448,21 @@ namespace {
         cbs = cb_storage;
         static pika::stop_source bases[NSTATES];
         base_src = bases;
-        for (int s = 0; s < NSTATES; s++) St[s].live_sources = 1;
+        for (int s = 0; s < NSTATES; s++) St[s].live_sources = St[s].upper_sources = 1;
+        static pika::stop_token toks[NSTATES];
+        base_tok = toks;
+        if (g_orphan)
+        {
+            seed_src.resize((size_t) nparties);
+            for (int s = 0; s < NSTATES; s++)
+            {
+                toks[s] = bases[s].get_token();
+                for (int i = 0; i < nparties; i++) seed_src[(size_t) i].push_back(bases[s]);
+                bases[s] = pika::stop_source(pika::nostopstate);
+                St[s].live_sources = St[s].upper_sources = nparties;
+            }
+            probe("orphan_run");
+        }
         static Parties P;
         std::vector<int> kinds;
         for (int i = 0; i < nparties; i++)
@@ -431,15 +499,16 @@ namespace {
         }
         for (int s = 0; s < NSTATES; s++)
         {
-            pika::stop_token tok = bases[s].get_token();
+            pika::stop_token tok = g_orphan ? toks[s] : bases[s].get_token();
             VH_CHECK(tok.stop_requested() == (St[s].winners == 1), "C14.token_state",
                 "state %d: stop_requested()=%d, winners=%d", s, (int) tok.stop_requested(), St[s].winners);
-            VH_CHECK(St[s].live_sources == 1, "C14.harness", "model source count %d", St[s].live_sources);
+            VH_CHECK(St[s].live_sources == (g_orphan ? 0 : 1) && St[s].upper_sources == St[s].live_sources, "C14.harness",
+                "model source count %d..%d", St[s].live_sources, St[s].upper_sources);
         }
         // stop_possible after the last source is gone: true iff stop was requested
         for (int s = 0; s < NSTATES; s++)
         {
-            pika::stop_token tok = bases[s].get_token();
+            pika::stop_token tok = g_orphan ? toks[s] : bases[s].get_token();
             bases[s] = pika::stop_source(pika::nostopstate);
             VH_CHECK(tok.stop_possible() == (St[s].winners == 1), "C14.stop_possible",
                 "state %d: after the last stop_source is gone stop_possible()=%d but stop %s requested", s,
